@@ -429,6 +429,65 @@ def scOarr (d : DCfg) : Tk String := do
     let one := if o.count = 1 then s!" one=0:{dumpObj d o}:eq=1" else ""
     pure (pass false ++ " " ++ pass true ++ one ++ " live=0")
 
+/-- `radd HEX K`: appending to what the readers returned -/
+def scRadd (d : DCfg) (b : Bytes) (k : Nat) : String := Id.run do
+  let arr := b.toArray
+  match fhRead arr 0 with
+  | .error e => return s!"fh={failS e} live=0"
+  | .ok (_, p) =>
+    match readTM d.cfg arr p with
+    | .error e => return s!"fh=0 tm={failS e} live=0"
+    | .ok (tm0, p2) =>
+      let mut out := "fh=0 tm=0"
+      let tsr := readTS d.cfg tm0.cols.length none arr p2
+      let ts : Option TS := match tsr with
+        | .ok (some t, _) => some t
+        | _ => none
+      out := out ++ (match tsr with
+        | .ok (some _, _) => " ts=0"
+        | .ok (none, _) => " ts=-1000"
+        | .error e => s!" ts={failS e}")
+      -- K columns added to the table metadata
+      let mut tm := tm0
+      let mut sts : List String := []
+      for i in [0:k] do
+        let name := (s!"x{i}").toUTF8.toList
+        let (cm, st) := cmSetValues name 2 Md.empty
+        if st ≠ .ok then sts := sts ++ [stI st] else
+        match tmAdd cm tm with
+        | .ok t' => tm := t'; sts := sts ++ ["0"]
+        | .error e => sts := sts ++ [stI e]
+      out := out ++ s!" tmadd={",".intercalate sts}:{tm.cols.length}"
+      let w := emitAll (writeTM d.cfg tm)
+      out := out ++ s!" tmw={stI w.1}:{hexq d w.2}"
+      match ts with
+      | none => return out ++ " live=0"
+      | some t =>
+        let mut cols := t.cols
+        match cols.head? with
+        | some (some c0) =>
+          let rows := c0.values.rowCnt.toNat
+          let mut c := c0
+          let mut ps : List String := []
+          for i in [0:k] do
+            let name := (s!"q{i}").toUTF8.toList
+            let va := VA.plain ⟨2, List.replicate rows [0, 0, 0, 0]⟩
+            match csAddProperty c name va with
+            | .ok c' => c := c'; ps := ps ++ ["0"]
+            | .error e => ps := ps ++ [stI e]
+          out := out ++ s!" padd={",".intercalate ps}:{c.propCnt}"
+          cols := some c :: cols.tail
+        | _ => pure ()
+        let mut cs : List String := []
+        for i in [0:k] do
+          let va := VA.plain ⟨2, [[7, UInt8.ofNat i, 0, 0]]⟩
+          cols := cols ++ [some (csCreate va)]
+          cs := cs ++ ["0"]
+        out := out ++ s!" cadd={",".intercalate cs}:{cols.length}"
+        let tw := emitAll (writeTS d.cfg ⟨cols⟩)
+        out := out ++ s!" tsw={stI tw.1}:{hexq d tw.2}"
+        return out ++ " live=0"
+
 def scFsk (d : DCfg) (b : Bytes) : String :=
   let arr := b.toArray
   match fhRead arr 0 with
@@ -689,6 +748,7 @@ partial def scenario (d : DCfg) : Tk String := do
   else if kind == "va" then scVa d
   else if kind == "varead" then do let b ← nxB; pure (scVaread d b)
   else if kind == "oarr" then scOarr d
+  else if kind == "radd" then do let b ← nxB; let k ← nxN; pure (scRadd d b k)
   else if kind == "fsk" then do let b ← nxB; pure (scFsk d b)
   else if kind == "oskip" then do let t ← nxN; let b ← nxB; pure (scOskip d t b)
   else if kind == "md" then scMd d
